@@ -233,6 +233,46 @@ func checkExprThroughLinter(src string, viaIf bool) (key, msg string) {
 	return "", ""
 }
 
+type bareIfCase struct {
+	Src   string `json:"src"`
+	Valid bool   `json:"valid"`
+	Step  bool   `json:"step"`
+}
+
+// checkBareIf: src as an `if:` condition without ${{ }}. A sentence of the grammar gives no
+// diagnostic other than expression type errors; a non-sentence gives an expression syntax diagnostic on
+// the condition's line.
+func checkBareIf(src string, valid, step bool) (key, msg string) {
+	y := "on: push\njobs:\n  a:\n    runs-on: ubuntu-latest\n    if: " + src + "\n    steps:\n      - run: echo\n"
+	line := 5
+	if step {
+		y = "on: push\njobs:\n  a:\n    runs-on: ubuntu-latest\n    steps:\n      - run: echo\n        if: " + src + "\n"
+		line = 7
+	}
+	ds, err, pan, st := lintSafe([]byte(y))
+	if pan != nil {
+		return "C04/panic", fmt.Sprintf("panic %v at %s\n%s", pan, st, y)
+	}
+	if err != nil {
+		return "C04/linter-fatal", fmt.Sprintf("%v\n%s", err, y)
+	}
+	if valid {
+		for _, d := range ds {
+			// type errors of well-formed conditions (null < true) are not syntax
+			if d.Kind != "expression" || isSyntaxMsg(d.Msg) {
+				return "C04/bare-if-sentence-rejected", fmt.Sprintf("%q is a sentence of the grammar but as a bare if: condition it is rejected: %v\n%s", src, diagStrings(ds), y)
+			}
+		}
+		return "", ""
+	}
+	for _, d := range ds {
+		if d.Line == line && d.Kind == "expression" && isSyntaxMsg(d.Msg) {
+			return "", ""
+		}
+	}
+	return "C04/bare-if-non-sentence-accepted", fmt.Sprintf("%q is not a sentence of the grammar but as a bare if: condition it gets no syntax diagnostic: %v\n%s", src, diagStrings(ds), y)
+}
+
 func isSyntaxMsg(m string) bool {
 	return strings.HasPrefix(m, "got unexpected ") || strings.HasPrefix(m, "unexpected end of input") ||
 		strings.HasPrefix(m, "unexpected token ") || strings.HasPrefix(m, "parser did not reach end of input") ||
@@ -251,6 +291,15 @@ func yamlPlainSafe(s string) bool {
 }
 
 func init() {
+	hx.RegisterReplayer("C04/bare-if", func(r *hx.Run, data json.RawMessage) {
+		var c bareIfCase
+		if err := json.Unmarshal(data, &c); err != nil {
+			panic(err)
+		}
+		if k, m := checkBareIf(c.Src, c.Valid, c.Step); k != "" {
+			r.Report(k, m, "C04/bare-if", &c)
+		}
+	})
 	hx.RegisterReplayer("C04/expr", func(r *hx.Run, data json.RawMessage) {
 		var c exprCase
 		if err := json.Unmarshal(data, &c); err != nil {
@@ -280,7 +329,7 @@ func needSep(a, b string) bool {
 
 func TestC04(t *testing.T) {
 	hx.Main(t, "C04", func(r *hx.Run) {
-		r.Rule = "(1) all token sequences up to length 5 (thorough 6) over {a true null f 's' 1 1.5 ( ) [ ] . ! == < && || * ,} printed with single spaces and (where lexically safe) without spaces; (2) all character strings up to length 4 (thorough 5) over \"a_-019xeE+.' !=<>&|()[]*,}\\\"#\"; (3) random trees up to depth 6 printed with random whitespace/case/redundant parentheses (tree known by construction), single-token edits of them, number/string literal fuzz, sampled through the linter. Oracle: reference lexer+parser (harness/exprgen/ref.go) for accept/reject and structure modulo associativity; literal values; error offset/line/column. Non-trivial: in (1),(2) a string the reference accepts (distinct by construction); in (3) every generated text (trees are valid by construction, edits sit at the boundary of the language), distinct by text hash."
+		r.Rule = "(1) all token sequences up to length 5 (thorough 6) over {a true null f 's' 1 1.5 ( ) [ ] . ! == < && || * ,} printed with single spaces and (where lexically safe) without spaces; (2) all character strings up to length 4 (thorough 5) over \"a_-019xeE+.' !=<>&|()[]*,}\\\"#\"; (3) random trees up to depth 6 printed with random whitespace/case/redundant parentheses (tree known by construction), single-token edits of them, number/string literal fuzz, sampled through the linter; (4) all token sequences up to length 3 (thorough 4) over {null true false 1 1.5 0x1 's' github.sha ( ) ! == != < && ||} as bare job-level and step-level `if:` conditions (sentence => no diagnostic other than expression type errors, non-sentence => syntax diagnostic on that line). Oracle: reference lexer+parser (harness/exprgen/ref.go) for accept/reject and structure modulo associativity; literal values; error offset/line/column. Non-trivial: in (1),(2) a string the reference accepts (distinct by construction); in (3) every generated text (trees are valid by construction, edits sit at the boundary of the language), distinct by text hash."
 		r.Assumptions = []string{"number grammar: JSON numbers plus 0x hex, with the leading-zero rules pinned by the repository's own lexer tests (0x0123, 1e01, 0123, 1. are errors)", "chains of the same operator level are compared modulo associativity"}
 		nviol := 0
 		handle := func(c *exprCase) {
@@ -461,6 +510,50 @@ func TestC04(t *testing.T) {
 				r.Fail(rt, k, m, "C04/expr", c)
 			}
 		})
+		// bare `if:` conditions (no ${{ }}): every token sequence up to length 3 (thorough 4) over an
+		// alphabet of semantically harmless tokens, as job-level and step-level condition. YAML resolves
+		// some of them to typed scalars (null, true, 1, 1.5, 0x1): they are sentences all the same.
+		{
+			alpha := []string{"null", "true", "false", "1", "1.5", "0x1", "'s'", "github.sha", "(", ")", "!", "==", "!=", "<", "&&", "||"}
+			maxLen := hx.N(3, 4)
+			var seq []string
+			var rec func(depth int)
+			nBare, nBareValid := int64(0), int64(0)
+			rec = func(depth int) {
+				if nviol > 20 {
+					return
+				}
+				if depth > 0 && mine() {
+					src := strings.Join(seq, " ")
+					if c := src[0]; (c >= 'a' && c <= 'z' || c >= '0' && c <= '9' || c == '(') && yamlPlainSafe(src) {
+						_, valid := eg.Parse(src + "}}")
+						for _, step := range []bool{false, true} {
+							k, m := checkBareIf(src, valid, step)
+							r.Eval()
+							nBare++
+							if valid {
+								r.NTSeq(1)
+								nBareValid++
+							}
+							if k != "" && r.Report(k, m, "C04/bare-if", &bareIfCase{Src: src, Valid: valid, Step: step}) {
+								nviol++
+							}
+						}
+					}
+				}
+				if depth == maxLen {
+					return
+				}
+				for _, a := range alpha {
+					seq = append(seq, a)
+					rec(depth + 1)
+					seq = seq[:len(seq)-1]
+				}
+			}
+			rec(0)
+			r.Extra["bare_if_conditions_checked"] = nBare
+			r.Extra["bare_if_conditions_valid"] = nBareValid
+		}
 		// through the linter
 		r.Check(t, "through-linter", hx.N(1500, 30000), func(rt *rapid.T) {
 			n := eg.GenSyntax(rt, rapid.IntRange(1, 4).Draw(rt, "depth"))
